@@ -34,7 +34,8 @@ def run (kv : KV) : String :=
       -- (controlled run, virtual time) the server was dropped with unreceived requests queued; after
       -- the clients left and more than the idle period passed no thread of the server is left, and
       -- what had been handed out was answered
-      ("na", b01 (decide (toNatD (get kv "after") ≤ toNatD (get kv "base")) && get kv "answered" == get kv "taken" && get kv "aborted" == "0"),
+      ("na", b01 (decide (toNatD (get kv "after") ≤ toNatD (get kv "base")) && get kv "answered" == get kv "taken" && get kv "aborted" == "0"
+          && (!has kv "refused" || get kv "refused" == "1")),
        "backlog:" ++ (if toNatD (get kv "n") > 8 then "gt8" else "le8"))
     else ("na", "na", "unknown")
   "res id=" ++ get kv "id" ++ " agree=1 skip=0 aC08=1 aC20=1 C08=" ++ c08 ++ " C20=" ++ c20 ++ " tags=srv:" ++ tag ++ " diff=-"
